@@ -12,12 +12,14 @@ mod framework;
 mod rings;
 mod matgen;
 mod c11;
+mod c12;
 
 use framework::*;
 
 fn check_by_id(id: &str) -> Option<Box<dyn Check>> {
     match id {
         "C11" => Some(Box::new(c11::C11)),
+        "C12" => Some(Box::new(c12::C12)),
         _ => None,
     }
 }
